@@ -194,17 +194,14 @@ impl SourceView {
             }
         }
 
-        // fetched everything
-        if self.processed_until.load(Ordering::Relaxed) > self.source.len() {
-            return None;
-        }
-
         let mut lines = self.lines.lock().unwrap();
 
         // another thread may have extended the index while we were waiting for the lock
         if let Some(&line) = lines.get(idx) {
             return Some(line);
         }
+        // fetched everything (only decided under the lock: the counter and the cache
+        // change together)
         if self.processed_until.load(Ordering::Relaxed) > self.source.len() {
             return None;
         }
